@@ -207,7 +207,8 @@ def _placement_guards(ctx, cell, nz):
     ctx.require(brem, 'removal in the blacklist pass')
     for node, call in brem:
         v = N.txt(call.args[0])[:-5]
-        have = set(N.show(f) for f in facts_about(bfacts[node], v))
+        have = set(N.show(f) for f in facts_about(
+            N.raw_only(bfacts[node]), v))
         ok = have == {'%s.blacklisted' % v, '%s.server' % v}
         ctx.ob('C08.3', bl, node, ok,
                'removed exactly when blacklisted and placed (facts: %s)' %
